@@ -35,3 +35,27 @@ Theorem C06_bounded_star_under_12 : forall s,
   In s (strings_up_to alpha_star 12) \/ In s (strings_up_to alpha_under 12) -> model_emphasis s = spec_emphasis s.
 Proof. intros s H. apply str_eqb_eq. exact (star_under_up_to_12 s H). Qed.
 Print Assumptions C06_bounded_star_under_12.
+
+(* UNBOUNDED, end to end through the inline phase, for the simplest emphasis: the text "*w*", "_w_", "**w**" or "__w__"
+   whose inside w is free of trigger characters and begins and ends with a character that is neither white space nor
+   punctuation tokenizes to exactly one Emphasis (Strong for the doubled forms) holding w as raw text, and renders as
+   <em>w</em> / <strong>w</strong> - for every w of any length: the delimiter scanner builds the two delimiter runs, the
+   first can only open and the second only close (flanking), process_emphasis pairs them, every other span finder finds
+   nothing, the candidate tokenizer nests the raw text inside the one match (Proofs/EmphSimple.v). *)
+From Mistletoe Require Import Model.Tree Model.Inline Model.HtmlRenderer Model.Parser Proofs.EmphSimple.
+Theorem C06_simple_emphasis : forall types fn o ch (double : bool) w,
+  (ch = 42 \/ ch = 95)%Z -> emph_word w = true -> emph_spans types = true ->
+  let run := if double then [ch; ch] else [ch] in
+  let tag := if double then $"strong" else $"em" in
+  tokenize_inner types fn (run ++ w ++ run) = [if double then Strong [ch] [RawText w] else Emphasis [ch] [RawText w]] /\
+  serialize (flat_map (render o false false) (tokenize_inner types fn (run ++ w ++ run))) =
+    $"<" ++ tag ++ $">" ++ escape_html_text o w ++ $"</" ++ tag ++ $">".
+Proof. exact simple_emphasis. Qed.
+Print Assumptions C06_simple_emphasis.
+
+Theorem C06_simple_emphasis_hypotheses :
+  forallb (fun c => emph_spans (cfg_span c)) [cfg_html; cfg_html_nohtml; cfg_markdown; cfg_latex; cfg_mathjax; cfg_default] = true /\
+  (emph_word ($"really") = true /\ emph_word ($"two words, or 3") = true /\ emph_word ($"é") = true /\
+   emph_word ($" x") = false /\ emph_word ($"x.") = false /\ emph_word ($"a*b") = false).
+Proof. split; [exact emph_configs|exact emph_words]. Qed.
+Print Assumptions C06_simple_emphasis_hypotheses.
